@@ -65,9 +65,19 @@ def finish(pid, tier, seed, obs, results, sc, woven, wall, write_evidence=True):
 
     # replay for new violations
     viol_lines = []
-    for r, new in violations:
+    MAX_REPLAYS = int(os.environ.get('VERIF_MAX_REPLAYS', '3'))
+    for vi, (r, new) in enumerate(violations):
         trace = None
         text = r.log
+        # counterexample extraction (a second solver run with --trace) and native replay are done for the first MAX_REPLAYS failing
+        # obligation groups only; the others still get their VIOLATION line and a replay file with the verifier output
+        if vi >= MAX_REPLAYS:
+            path, status = replay_mod.write_replay(pid, r.ob, new, None, r.log + '\n(replay not attempted: more than %d obligation groups failed in this run)' % MAX_REPLAYS, r.ob.defines)
+            r.replay = path
+            names = ', '.join(f"{f['property']} ({f['description']})" for f in new[:2])
+            print(f'FAILED-OBLIGATION {r.ob.name}: {names} [native replay: not attempted]')
+            viol_lines.append(f'VIOLATION property={pid} replay={path} no-failing-input-found')
+            continue
         if r.ob.replayable:
             r2 = engine.build_and_check(r.ob, sc, want_trace=True)
             for f in r2.failed:
